@@ -188,7 +188,7 @@ func c05Gen(tier string, seed int64) []core.Case {
 	}
 	// full replay: the deviator replays, for every message type, what one other participant sends (commitment, opening and
 	// proof together). Also in a committee of 257 signers, where the deviator's index and the copied party's index differ by 256.
-	for _, sc := range append(faultSessions(tier), sessCfg{"eddsa-signing", 257, 1, seqInts(257), 0, 0, "dealt", 4}) {
+	for _, sc := range append(faultSessions(tier), sessCfg{"eddsa-signing", 257, 1, seqInts(257), 0, 0, "dealt", 4}, sessCfg{"eddsa-keygen", 257, 1, nil, 0, 0, "small", 6}) {
 		if !strings.HasSuffix(sc.proto, "signing") && !strings.HasSuffix(sc.proto, "keygen") {
 			continue
 		}
